@@ -1,9 +1,9 @@
 #!/bin/sh
 # usage: seedtest2.sh <patch.diff> <Cxx> [<Cyy> ...]
 # applies a seeded change to a private worktree of the fixed tree and runs the checks against it (VERIF_REPO),
-# so that /repo itself is never touched.  BASE = commit to test against (default: repo-clean HEAD)
+# so that /repo itself is never touched.  BASE = commit to test against (default: HEAD of /repo)
 P="$1"; shift
-BASE=${BASE:-$(git -C /tmp/repo-clean rev-parse HEAD)}
+BASE=${BASE:-$(git -C /repo rev-parse HEAD)}
 W=/tmp/repo-mut-$$
 git -C /repo worktree add -q --detach $W $BASE || exit 9
 cd $W
